@@ -574,7 +574,7 @@ class Fn:
 
     # -- helpers
     def rho(self):
-        return "Bool" if self.ret == "bool" else "Unit"
+        return {"bool": "Bool", "int": "Int"}.get(self.ret, "Unit")
 
     def sig(self):
         return f"(E : Env) (f : Nat) (s : {self.rec})" if self.fuel else f"(E : Env) (s : {self.rec})"
@@ -756,6 +756,16 @@ class Fn:
                     self.touch(m)
                 t = self.tmp()
                 return (f"match {lean} E s with\n| some (.ret {t} s) =>\n{ind(k('bool', t))}\n| _ => none")
+            if self.proc and name in ("::read", "::write") and len(args) == 3 and args[1] == ("var", "buffer"):
+                def k1(t1, x1):
+                    def k3(t3, x3):
+                        if t1 != "int" or t3 != "usize":
+                            raise Refuse(f"{self.name}: {name}({t1}, buffer, {t3})")
+                        t = self.tmp()
+                        prim = "K.sysRead" if name == "::read" else "K.sysWrite"
+                        return f"let {t} := {prim} s.k {x1} {x3}\n" + self.update("k", f"{t}.2", lambda: k("int", f"{t}.1"))
+                    return self.cexpr(args[2], k3)
+                return self.cexpr(args[0], k1)
             if self.proc and name == "WEXITSTATUS" and len(args) == 1:
                 def kk(ty, term):
                     if ty != "int":
@@ -923,6 +933,12 @@ class Fn:
                 return self.ret_("()")
             if s[1] is None:
                 raise Refuse(f"{self.name}: return without a value")
+            if self.ret == "int":
+                def kr(ty, term):
+                    if ty != "int":
+                        raise Refuse(f"{self.name}: return of a {ty}")
+                    return self.ret_(term)
+                return self.cexpr(s[1], kr)
             return self.ccond(s[1], K(self.ret_("true")), K(self.ret_("false")))
         if kind == "break":
             if ctx[0] is None:
@@ -1286,10 +1302,13 @@ def generate_proc(repo):
         "close": (["void", "Process", "::", "close", "(", "uint", "streams", ")"], "void", [("streams", "usize")]),
         "ctor": (["Process", "::", "Process", "(", ")", ":", "pid", "(", "0", ")"], "void", []),
         "exit": (["void", "Process", "::", "exit", "(", "uint32", "exitCode", ")"], "void", [("exitCode", "usize")]),
+        "read2": (["ssize", "Process", "::", "read", "(", "void", "*", "buffer", ",", "usize", "len", ")"], "int", [("len", "usize")]),
+        "write": (["ssize", "Process", "::", "write", "(", "const", "void", "*", "buffer", ",", "usize", "len", ")"], "int", [("len", "usize")]),
     }
     docs = {"join": "bool Process::join(uint32& exitCode)", "join0": "bool Process::join()", "dtor": "Process::~Process()",
             "kill": "bool Process::kill()", "isRunning": "bool Process::isRunning() const", "close": "void Process::close(uint streams)",
-            "ctor": "Process::Process() : pid(0)", "exit": "static void Process::exit(uint32 exitCode)"}
+            "ctor": "Process::Process() : pid(0)", "exit": "static void Process::exit(uint32 exitCode)",
+            "read2": "ssize Process::read(void* buffer, usize len)", "write": "ssize Process::write(const void* buffer, usize len)"}
     bodies = {n: parse_body(find_body(cpp, sg[0], "Process::" + n), n) for n, sg in sigs.items()}
     allvars = dict(members)
     for n, sg in sigs.items():
@@ -1297,7 +1316,7 @@ def generate_proc(repo):
             if allvars.get(v, t) != t:
                 raise Refuse(f"{n}: parameter `{v}` clashes with another variable")
             allvars[v] = t
-    fns, order = {}, ["join", "join0", "dtor", "kill", "isRunning", "close", "ctor", "exit"]
+    fns, order = {}, ["join", "join0", "dtor", "kill", "isRunning", "close", "ctor", "exit", "read2", "write"]
     callees = {"join": {1: ("join", ["exitCode"])}}
     for n in order:                                        # one record for all: collect the locals first
         f = Fn(n, "PS", sigs[n][1], allvars, consts, streams, False, [m for m, _ in members])
